@@ -234,6 +234,17 @@ Theorem C04_handover_survives : forall cf evs1 evs2 rid cid,
 Proof. exact survives. Qed.
 Print Assumptions C04_handover_survives.
 
+(** Both together, for a RequestID that is the request's own: processInitial
+    reads exactly what HandleBefore of the same request extracted. *)
+Theorem C04_handover_exact : forall cf evs1 evs2 rid cid,
+  fits cf cid ->
+  (forall e, In e evs1 -> ~ touches rid e) ->
+  (forall e, In e evs2 -> ~ touches rid e) ->
+  (length evs2 < cc_max_count cf)%nat ->
+  seen_after cf (evs1 ++ EvBefore rid cid :: evs2) rid = cid.
+Proof. exact handover_exact. Qed.
+Print Assumptions C04_handover_exact.
+
 Theorem C04_handover_server_conf_fits : forall v, fits server_cache_conf v.
 Proof. exact server_conf_fits. Qed.
 Print Assumptions C04_handover_server_conf_fits.
